@@ -46,7 +46,8 @@ ASSUMPTIONS = [
 EXTRA_CANON = {}      # set by the value-variation stream: same ids, different values, same process
 
 def canon(desc, symptom, **kw):
-    return dict(op='passivity', symptom=symptom, **gs.facts(desc), **({'si_units': True} if 'si' in desc else {}), **EXTRA_CANON, **kw)
+    return dict(op='passivity', symptom=symptom, **gs.facts(desc), **({'si_units': True} if 'si' in desc else {}),
+                **({'custom_index_maps': True} if desc.get('maps') else {}), **EXTRA_CANON, **kw)
 
 def pulse_inputs(desc, sources, tin, k_on, k_off):
     """piecewise-linear pulses with breakpoints on the grid: 0, one-sample ramp up, hold,
@@ -184,6 +185,8 @@ def run(ctx, out):
         check_case(ctx, out, desc, 'si_corpus')
     for desc in SOURCE_CORPUS:
         check_case(ctx, out, desc, 'source_corpus')
+    for desc in c10.MAP_CORPUS:
+        check_case(ctx, out, desc, 'map_corpus')
     rng = ctx.rng('random')
     n_random = 150 if ctx.quick else 2500
     reserve = 8 if ctx.quick else 60
@@ -196,6 +199,15 @@ def run(ctx, out):
             if ok: break
             out.count('rejected_degenerate:' + why)
         check_case(ctx, out, desc)
+        # index-map stream (non-default, order-consistent maps for the three public mapper keywords) and corners of the
+        # domain (no source, 3–4 sources, no resistor — lossless LC —, up to nine nodes, V = 0)
+        if rng.random() < (0.3 if ctx.quick else 1.0):
+            check_case(ctx, out, gs.with_maps(rng, desc), 'index_maps'); out.count('index_map_cases')
+        if rng.random() < (0.25 if ctx.quick else 1.0):
+            for _ in range(40):
+                dw = gs.wide_desc(rng)
+                if gs.nondegenerate(ctx.driver, dw)[0]: break
+            check_case(ctx, out, dw, 'corner'); out.count('corner:' + dw['corner'])
         # source-kind stream: every source kind the state-space builder accepts — ac voltage sources (w = 0 and
         # w ≠ 0), periodic voltage sources, ac current sources, with internal resistance / conductance and nominal
         # phases in all quadrants: the unforced dynamics cannot depend on what a source is driven with
